@@ -49,18 +49,23 @@ CHECKS = {
 }
 NOT_YET = 'check not built yet in this round (design in DESIGN.md section 3); will be claimed once implemented and validated'
 
+FUZZED_QUICK = {'C05', 'C06', 'C09', 'C10', 'C12', 'C16'}
+FUZZED_THOROUGH = FUZZED_QUICK | {'C13', 'C14', 'C15', 'C18', 'C19', 'C20'}
+
 def main():
     checks = []
     for pid in ALL:
         if pid not in CHECKS: continue
         tech, text, note, ref = CHECKS[pid]
+        if pid in FUZZED_THOROUGH:
+            tech += '; + coverage-guided libFuzzer over the same byte decoder (zero schedule) in the thorough tier' + (' and with a small budget in the quick tier' if pid in FUZZED_QUICK else '')
         checks.append(dict(
             property_id=pid,
             quick_cmd='./check %s --tier quick' % pid,
             thorough_cmd='./check %s --tier thorough' % pid,
             evidence_file='/verif/evidence/%s.json' % pid,
             replay_cmd_template='./check %s --replay {path}' % pid,
-            engine='vrt+rapidcheck',
+            engine='vrt+rapidcheck+libfuzzer' if pid in FUZZED_THOROUGH else 'vrt+rapidcheck',
             level_claimed=dict(category='exploration', text=text, design_ref='DESIGN.md ' + ref),
             level_note=note,
             technique=tech))
@@ -70,7 +75,9 @@ def main():
         hooks=dict(guard='COCLS_VERIF', enable='no source hook: the harness pre-includes engine/interpose.h which renames std::atomic/mutex/condition_variable/thread/deque/system_clock/stop_* to instrumented twins before including the unmodified cocls headers (-DCOCLS_VERIF is passed but nothing in /repo tests it)',
                    baseline_off_cmd='cmake --build /repo/_build && ctest --test-dir /repo/_build -j8 --timeout 900',
                    source_commits=[], add_only=True),
-        engines=[dict(name='vrt+rapidcheck', path='engine/', serves_properties=sorted(CHECKS),
+        engines=[dict(name='vrt+rapidcheck+libfuzzer', path='engine/', serves_properties=sorted(FUZZED_THOROUGH),
+                      kind_free_text='the same harnesses driven additionally by libFuzzer (engine/fuzz_driver.cpp, clang++ -fsanitize=fuzzer,address,undefined): the input bytes are the program, crash artifacts are converted to .case files and must reproduce under the fork-per-case replay before they count'),
+                 dict(name='vrt+rapidcheck', path='engine/', serves_properties=sorted(CHECKS),
                       kind_free_text='property-based testing: rapidcheck generators (programs, schedules, faults) -> fork/served case children running the real cocls code on a virtual runtime that owns the thread schedule and the clock; systematic 1-preemption sweep; sanitizers as part of the oracle')],
         checks=checks,
         notes='Seeds: VERIF_SEED; tiers: VERIF_TIER or --tier. Genuine defects found and repaired are listed in known_findings.txt (fixed: lines).',
